@@ -372,6 +372,43 @@ pub fn gen_c02(rng: &mut Rng) -> ConnCase {
     c
 }
 
+/// C02 / C11 / C12: one persistent connection that carries a long conversation.  What has gone
+/// before on a connection must not matter: the 420th small request, the 8th request with a 1.5 KiB
+/// cookie and the 300th request with a head above the read buffer are delivered and answered like
+/// the first, and the server leaves the connection open until the client closes it.
+pub fn gen_long(rng: &mut Rng, variant: usize) -> ConnCase {
+    let (n, pad): (usize, usize) = match variant % 3 {
+        0 => (420, 140),
+        1 => (8, 1500),
+        _ => (300, 1100),
+    };
+    let mut reqs = vec![];
+    let mut script = vec![];
+    for i in 0..n {
+        let mut r = AReq::get(&format!("/long/{}", i));
+        r.hdrs.push(("Accept".into(), "*/*".into()));
+        if pad > 0 {
+            r.hdrs.push(("Cookie".into(), rand_token(rng, pad)));
+        }
+        if variant % 3 == 1 && rng.chance(1, 2) {
+            r.ver = (1, 0);
+            r.hdrs.push(("Connection".into(), "keep-alive".into()));
+        }
+        r.last = false;
+        reqs.push(r);
+        let body = format!("r{}", i).into_bytes();
+        script.push(Action {
+            as_reader: 0,
+            read_total: 0,
+            buf: 1,
+            delay_ms: 0,
+            fin: Finish::Respond(RespSpec { status: 200, hdrs: vec![], declared: Some(body.len()), thr: None, pieces: vec![body] }),
+            zero_read: false,
+        });
+    }
+    assemble(rng, &reqs, script, Mode::HalfClose, "i_fam=long")
+}
+
 thread_local! {
     /// set by the caller to make the next `gen_body` use a body far above every buffer (400 kB)
     pub static HUGE: std::cell::Cell<bool> = std::cell::Cell::new(false);
@@ -765,6 +802,12 @@ pub fn gen_c18(rng: &mut Rng) -> ConnCase {
             c.hold = Some(head_end);
             // the interim response must be there before the body is released
             c.intent.push_str(" i_holdneed=1");
+            // the interim response is due when the application asks for the body, however long
+            // after the head arrived that is
+            if rng.chance(1, 25) {
+                c.script[0].delay_ms = PRE_DELAY + 1300;
+                c.intent.push_str(" i_lateask=1");
+            }
         }
     }
     c
